@@ -4309,10 +4309,14 @@ impl Handler {
         // the raw text as ONE statement would, e.g., read ".kg use b\n.kg create c" as
         // just ".kg use b". Lines that do not parse make query_program() reject the
         // whole program before anything runs.
-        let stmts: Vec<statement::Statement> = join_continuation_lines(&strip_comments(&program))
+        let logical_lines = join_continuation_lines(&strip_comments(&program));
+        let logical_lines: Vec<&str> = logical_lines
             .lines()
             .map(str::trim)
             .filter(|l| !l.is_empty())
+            .collect();
+        let stmts: Vec<statement::Statement> = logical_lines
+            .iter()
             .filter_map(|l| statement::parse_statement(l).ok())
             .collect();
 
@@ -4439,9 +4443,13 @@ impl Handler {
             }
         }
 
-        // Fast path: intercept session meta commands that need SessionManager
-        if trimmed.starts_with('.') {
-            if let Ok(statement::Statement::Meta(ref meta)) = statement::parse_statement(trimmed) {
+        // Fast path: intercept session meta commands that need SessionManager.
+        // Only a request that is exactly one statement takes it, and it takes it with the
+        // statement the checks above have seen: parsing the raw text once more would read
+        // ".user drop\nalice" (two lines, neither of them a statement, so neither was
+        // authorized) as the single command `.user drop alice`.
+        if logical_lines.len() == 1 {
+            if let Some(statement::Statement::Meta(ref meta)) = stmts.first() {
                 match meta {
                     MetaCommand::SessionList => {
                         let sid = session_id.ok_or_else(|| "No active session".to_string())?;
